@@ -548,6 +548,8 @@ func cmdCorr(seed uint64, n int, exh int) {
 	}
 	// T: the trailing index (mfro -> mfra -> tfra look-back under the ISM flag)
 	corrTrail(r, n/8)
+	// X: cross references of the second senc pass (coq/c04/C04XrefModel.v)
+	corrXref(r, n/10)
 	// C: count-field inflation of the table boxes (the prologues modelled in coq/c04/C04AllocModel.v)
 	corrCounts(r, n/2)
 	fmt.Fprintf(out, "STATS\t%d\t%d\t%d\t%d\n", rstats.ns, rstats.n, rstats.alloc, rstats.restarts)
